@@ -22,6 +22,8 @@ import (
 	"strings"
 	"sync"
 	"time"
+	"unicode/utf16"
+	"unicode/utf8"
 
 	chproto "github.com/ClickHouse/ch-go/proto"
 	rsvc "github.com/metrico/qryn/reader/service"
@@ -29,6 +31,8 @@ import (
 	wsvc "github.com/metrico/qryn/writer/service"
 	"github.com/metrico/qryn/writer/service/impl"
 	"github.com/metrico/qryn/writer/utils/unmarshal"
+	"github.com/go-faster/jx"
+	"github.com/valyala/fastjson"
 	common "go.opentelemetry.io/proto/otlp/common/v1"
 	resource "go.opentelemetry.io/proto/otlp/resource/v1"
 	trace "go.opentelemetry.io/proto/otlp/trace/v1"
@@ -72,7 +76,8 @@ type ORes struct {
 
 // JV: a JSON value with ordered (possibly repeated) object keys.
 // T: s string, i integer (I decimal text, any size), f the float 1.5, n another number that is not an integer literal (S its
-// text: exponent / fraction forms), b bool, z null, o object, a array
+// text: exponent / fraction forms, "-0"), x a string given by its JSON text S (quotes included: escapes the renderer would not choose,
+// e.g. a lone surrogate), b bool, z null, o object, a array
 type JV struct {
 	T string `json:"t"`
 	S string `json:"s,omitempty"`
@@ -125,6 +130,13 @@ type RSpan struct {
 	Attrs []KV   `json:"attrs"`
 	Svc   string `json:"svc"`
 	Panic string `json:"panic,omitempty"`
+	// Events: the span's events as (time_unix_nano, name); Status: status code
+	Events []Ev `json:"ev"`
+	Status int32 `json:"status"`
+}
+type Ev struct {
+	T uint64 `json:"t"`
+	N string `json:"n"`
 }
 type Case struct {
 	ID    int    `json:"id"`
@@ -135,6 +147,18 @@ type Case struct {
 	// rendering knobs (do not reach the model; the model is insensitive to them)
 	Sep     int  `json:"sep"`      // whitespace variant between elements
 	TrailNL bool `json:"trail_nl"` // NDJSON: final newline
+	// Esc: how strings and member names are written: 0 = encoding/json's choice, 1 = every non-ASCII character, '/' and control
+	// characters as \uXXXX / \/ escapes (surrogate pairs above U+FFFF), 2 = additionally every third character as \u00XX
+	Esc int `json:"esc"`
+	// Tails: NDJSON only: text appended to the line of element i after its JSON value (what follows the span object on its line)
+	Tails []string `json:"tails,omitempty"`
+	// Toks: per element / line: the token stream jx (the write side's tokenizer) reads from its text: "{" "}" "[" "]" "k<name>" "s<string>"
+	// "n<number text>" "t" "f" "z"; "!" = the tokenizer refused the rest.  This is the input of the Coq model (model/SpansJson.v).
+	Toks [][]string `json:"toks"`
+	// PayTokDiff: first difference between the token streams jx and fastjson (the read side's parser) read from a STORED Zipkin payload
+	PayTokDiff string `json:"pay_tok_diff,omitempty"`
+	// PayTokSurrogate: every such difference is a string in which fastjson kept a lone \uD800-\uDFFF escape as text where jx decoded U+FFFD
+	PayTokSurrogate bool `json:"pay_tok_surrogate,omitempty"`
 	// delivery of the request body to the parser: 0 = one io.Reader over the whole body, 1 = one byte per Read,
 	// 2 = 1..1500 bytes per Read (network-like), 3 = 1..64 bytes per Read; sizes drawn from a PRNG seeded with SegSeed
 	SegMode int   `json:"seg_mode"`
@@ -303,9 +327,188 @@ func otlpBody(rs []ORes) []byte {
 
 // ---------------------------------------------------------------- JSON rendering (order and duplicates preserved)
 
+// escMode: the string-writing variant of the request being rendered (Case.Esc)
+var escMode int
+
 func jstr(s string) string {
-	b, _ := json.Marshal(s)
-	return string(b)
+	if escMode == 0 || !utf8.ValidString(s) {
+		b, _ := json.Marshal(s)
+		return string(b)
+	}
+	var sb strings.Builder
+	sb.WriteByte('"')
+	i := 0
+	for _, r := range s {
+		i++
+		switch {
+		case r == '"':
+			sb.WriteString(`\"`)
+		case r == '\\':
+			sb.WriteString(`\\`)
+		case r == '/':
+			sb.WriteString(`\/`)
+		case r == '\n' && i%2 == 0:
+			sb.WriteString(`\n`)
+		case r == '\t' && i%2 == 0:
+			sb.WriteString(`\t`)
+		case r < 0x20 || r == 0x7f:
+			fmt.Fprintf(&sb, `\u%04x`, r)
+		case r > 0xffff:
+			r1, r2 := utf16.EncodeRune(r)
+			fmt.Fprintf(&sb, `\u%04X\u%04x`, r1, r2)
+		case r >= 0x80:
+			fmt.Fprintf(&sb, `\u%04x`, r)
+		case escMode == 2 && i%3 == 0:
+			fmt.Fprintf(&sb, `\u%04X`, r)
+		default:
+			sb.WriteRune(r)
+		}
+	}
+	sb.WriteByte('"')
+	return sb.String()
+}
+
+// ---------------------------------------------------------------- token streams (the tokenizers are the oracle of the Coq model)
+
+func jxValue(d *jx.Decoder, out *[]string) error {
+	switch d.Next() {
+	case jx.String:
+		s, err := d.Str()
+		if err != nil {
+			return err
+		}
+		*out = append(*out, "s"+s)
+	case jx.Number:
+		n, err := d.Num()
+		if err != nil {
+			return err
+		}
+		*out = append(*out, "n"+string(n))
+	case jx.Null:
+		if err := d.Null(); err != nil {
+			return err
+		}
+		*out = append(*out, "z")
+	case jx.Bool:
+		b, err := d.Bool()
+		if err != nil {
+			return err
+		}
+		if b {
+			*out = append(*out, "t")
+		} else {
+			*out = append(*out, "f")
+		}
+	case jx.Array:
+		*out = append(*out, "[")
+		if err := d.Arr(func(d *jx.Decoder) error { return jxValue(d, out) }); err != nil {
+			return err
+		}
+		*out = append(*out, "]")
+	case jx.Object:
+		*out = append(*out, "{")
+		if err := d.Obj(func(d *jx.Decoder, k string) error {
+			*out = append(*out, "k"+k)
+			return jxValue(d, out)
+		}); err != nil {
+			return err
+		}
+		*out = append(*out, "}")
+	default:
+		return fmt.Errorf("not a value")
+	}
+	return nil
+}
+
+// jxTokens: every value of the text in turn; what jx cannot read ends the stream with "!"
+func jxTokens(text string) []string {
+	out := []string{}
+	d := jx.DecodeStr(text)
+	for {
+		if d.Next() == jx.Invalid {
+			// end of input (only whitespace left) or a byte that starts no value
+			if err := d.Skip(); err != io.EOF {
+				out = append(out, "!")
+			}
+			return out
+		}
+		if err := jxValue(d, &out); err != nil {
+			return append(out, "!")
+		}
+	}
+}
+
+func fjValue(v *fastjson.Value, out *[]string) {
+	switch v.Type() {
+	case fastjson.TypeString:
+		*out = append(*out, "s"+string(v.GetStringBytes()))
+	case fastjson.TypeNumber:
+		*out = append(*out, "n"+v.String())
+	case fastjson.TypeNull:
+		*out = append(*out, "z")
+	case fastjson.TypeTrue:
+		*out = append(*out, "t")
+	case fastjson.TypeFalse:
+		*out = append(*out, "f")
+	case fastjson.TypeArray:
+		*out = append(*out, "[")
+		for _, e := range v.GetArray() {
+			fjValue(e, out)
+		}
+		*out = append(*out, "]")
+	case fastjson.TypeObject:
+		*out = append(*out, "{")
+		v.GetObject().Visit(func(k []byte, x *fastjson.Value) {
+			*out = append(*out, "k"+string(k))
+			fjValue(x, out)
+		})
+		*out = append(*out, "}")
+	}
+}
+
+// fjTokens: the whole text must be one value (fastjson.Parser.Parse), else "!"
+func fjTokens(text string) []string {
+	var p fastjson.Parser
+	v, err := p.Parse(text)
+	if err != nil {
+		return []string{"!"}
+	}
+	out := []string{}
+	fjValue(v, &out)
+	return out
+}
+
+var loneSurrogate = func() func(string) bool {
+	return func(s string) bool {
+		// the text holds a \uD800..\uDFFF escape literally (fastjson keeps an unpaired one as it stands)
+		for i := 0; i+5 < len(s); i++ {
+			if s[i] == '\\' && s[i+1] == 'u' && (s[i+2] == 'd' || s[i+2] == 'D') && strings.ContainsRune("89abcdefABCDEF", rune(s[i+3])) {
+				return true
+			}
+		}
+		return false
+	}
+}()
+
+// tokDiff: first difference of two token streams, and whether all differences are lone-surrogate strings
+func tokDiff(row int, a, b []string) (string, bool) {
+	first, onlySur := "", true
+	n := len(a)
+	if len(b) != n {
+		return fmt.Sprintf("row %d: jx reads %d tokens, fastjson %d (first %q)", row, len(a), len(b), b[0]), false
+	}
+	for i := 0; i < n; i++ {
+		if a[i] == b[i] {
+			continue
+		}
+		if first == "" {
+			first = fmt.Sprintf("row %d token %d: jx %q, fastjson %q", row, i, a[i], b[i])
+		}
+		if !(a[i][0] == b[i][0] && (a[i][0] == 's' || a[i][0] == 'k') && strings.Contains(a[i], "\uFFFD") && loneSurrogate(b[i])) {
+			onlySur = false
+		}
+	}
+	return first, first != "" && onlySur
 }
 
 func render(v JV, sb *strings.Builder, sp string) {
@@ -316,7 +519,7 @@ func render(v JV, sb *strings.Builder, sp string) {
 		sb.WriteString(v.I)
 	case "f":
 		sb.WriteString("1.5")
-	case "n":
+	case "n", "x":
 		sb.WriteString(v.S)
 	case "b":
 		if v.B {
@@ -361,9 +564,15 @@ func renderElem(v JV, sep int) string {
 }
 
 func zipkinBody(c *Case) (body []byte, texts []string) {
-	for _, e := range c.Zip {
-		texts = append(texts, renderElem(e, c.Sep))
+	escMode = c.Esc
+	for i, e := range c.Zip {
+		t := renderElem(e, c.Sep)
+		if c.Fmt == "znd" && i < len(c.Tails) {
+			t += c.Tails[i]
+		}
+		texts = append(texts, t)
 	}
+	escMode = 0
 	if c.Fmt == "znd" {
 		s := strings.Join(texts, "\n")
 		if c.TrailNL {
@@ -443,6 +652,15 @@ func readRows(rs [][]driver.Value) (out []RSpan, pan string) {
 			x.Tid, x.Sid, x.Pid = hex.EncodeToString(s.TraceId), hex.EncodeToString(s.SpanId), hex.EncodeToString(s.ParentSpanId)
 			x.Name, x.Start, x.End, x.Kind = s.Name, s.StartTimeUnixNano, s.EndTimeUnixNano, int32(s.Kind)
 			x.Attrs = fromKVs(s.Attributes)
+			x.Events = []Ev{}
+			for _, e := range s.Events {
+				x.Events = append(x.Events, Ev{T: e.TimeUnixNano, N: e.Name})
+			}
+			if s.Status != nil {
+				x.Status = int32(s.Status.Code)
+			} else {
+				x.Status = -1
+			}
 		} else {
 			x.Ok = false
 		}
@@ -658,9 +876,12 @@ func run(c *Case, silence bool) {
 	if c.Resp == nil {
 		c.Resp = [][2]int{}
 	}
+	c.Toks, c.PayTokDiff, c.PayTokSurrogate = [][]string{}, "", false
 	for _, t := range texts {
 		c.TextLens = append(c.TextLens, len(t))
+		c.Toks = append(c.Toks, jxTokens(t))
 	}
+	surOnly := true
 	c.BodyLen, c.Reads, c.SegHead = len(body), sr.reads, sr.head
 	c.BodyB64, c.SegAll = "", nil
 	if os.Getenv("SPANS_DUMP_BODY") != "" {
@@ -703,6 +924,13 @@ func run(c *Case, silence bool) {
 					row.Payload.Span = fromSpan(sp)
 				}
 			default:
+				// both tokenizers on the STORED text: the write side read it with jx, the read side will read it with fastjson
+				if d, sur := tokDiff(idx, jxTokens(pl), fjTokens(pl)); d != "" {
+					if c.PayTokDiff == "" {
+						c.PayTokDiff = d
+					}
+					surOnly = surOnly && sur
+				}
 				row.Payload.Kind = "other"
 				if idx < len(texts) && string(p) == texts[idx] {
 					row.Payload.Kind = "self"
@@ -721,6 +949,7 @@ func run(c *Case, silence bool) {
 				row.Ts, row.Dur, int64(row.PType), pl})
 		}
 	}
+	c.PayTokSurrogate = c.PayTokDiff != "" && surOnly
 	for _, t := range tags {
 		cs, n, p := toColsRetry(tagsSvc, t, c.Retry, &c.RetryDiff)
 		if p != "" || n != len(t.MKey) {
@@ -1015,12 +1244,51 @@ func genEndpoint(r *rand.Rand) JV {
 		o.O = append(o.O, f("ipv6", js("::1")))
 	}
 	if r.Intn(2) == 0 {
-		o.O = append(o.O, f("port", ji(int64(r.Intn(3))*4040)))
+		if r.Intn(4) == 0 { // lexical forms the read side's number reader (fastjson GetInt64) does not take for an integer, and the edges of int64
+			o.O = append(o.O, f("port", JV{T: "n", S: pick(r, []string{"80.0", "8e1", "-0", "9223372036854775807", "9223372036854775808", "-1", "0.5"})}))
+		} else {
+			o.O = append(o.O, f("port", ji(int64(r.Intn(3))*4040)))
+		}
 	}
 	if r.Intn(2) == 0 {
 		r.Shuffle(len(o.O), func(i, j int) { o.O[i], o.O[j] = o.O[j], o.O[i] })
 	}
 	return o
+}
+
+// annotations: mostly proper {"timestamp": microseconds, "value": text} objects; otherwise (not strict) the forms the read path
+// answers with no event or a changed one: timestamp 0 / a string / a fraction / beyond uint64 nanoseconds, a missing or non-string value,
+// an element that is no object, a member that is no array
+func genAnnotations(r *rand.Rand, strict bool) JV {
+	if !strict && r.Intn(10) == 0 {
+		return pick2(r, js("x"), jo(f("timestamp", ji(5))), JV{T: "z"})
+	}
+	a := JV{T: "a", A: []JV{}}
+	for n := r.Intn(4); n > 0; n-- {
+		ts := ji(1727700000000001 + int64(r.Intn(1000)))
+		val := js(pick(r, []string{"ws", "wr", "cs", "é", "error: x/y"}))
+		if !strict {
+			switch r.Intn(8) {
+			case 0:
+				ts = pick2(r, ji(0), JV{T: "n", S: "-0"}, js("1727700000000001"), JV{T: "n", S: "1727700000000001.0"}, JV{T: "n", S: "1e15"},
+					JV{T: "i", I: "18446744073709551"}, JV{T: "i", I: "18446744073709552"}, JV{T: "i", I: "18446744073709551616"}, ji(-5), JV{T: "z"})
+			case 1:
+				val = pick2(r, ji(3), JV{T: "z"}, jo())
+			case 2:
+				a.A = append(a.A, pick2(r, js("x"), ji(1), JV{T: "a", A: []JV{}}))
+				continue
+			}
+		}
+		fs := []JKV{f("timestamp", ts), f("value", val)}
+		if r.Intn(4) == 0 {
+			fs = fs[:1+r.Intn(1)]
+		}
+		if r.Intn(2) == 0 && len(fs) == 2 {
+			fs[0], fs[1] = fs[1], fs[0]
+		}
+		a.A = append(a.A, JV{T: "o", O: fs})
+	}
+	return a
 }
 
 func genTime(r *rand.Rand, base int64) JV {
@@ -1034,6 +1302,9 @@ func genTime(r *rand.Rand, base int64) JV {
 		v = -int64(r.Intn(100000))
 	default:
 		v = base + r.Int63n(1e9)
+	}
+	if v == 0 && r.Intn(2) == 0 {
+		return JV{T: "n", S: "-0"} // an integer literal: the value 0
 	}
 	if r.Intn(3) == 0 {
 		s := strconv.FormatInt(v, 10)
@@ -1111,8 +1382,8 @@ func genZSpan(r *rand.Rand, malformed bool, strict bool) JV {
 		}
 		fs = append(fs, f("tags", tags))
 	}
-	if r.Intn(4) == 0 {
-		fs = append(fs, f("annotations", JV{T: "a", A: []JV{jo(f("timestamp", ji(1727700000000001)), f("value", js("ws")))}}))
+	if r.Intn(3) == 0 {
+		fs = append(fs, f("annotations", genAnnotations(r, strict)))
 	}
 	if r.Intn(5) == 0 {
 		fs = append(fs, f(pick(r, []string{"debug", "shared", "extra"}), genJunk(r, 2)))
@@ -1233,6 +1504,21 @@ func genZipkin(r *rand.Rand, c *Case) {
 	}
 	c.Sep = r.Intn(4)
 	c.TrailNL = r.Intn(2) == 0
+	switch k := r.Intn(10); {
+	case k < 5:
+		c.Esc = 0
+	case k < 8:
+		c.Esc = 1
+	default:
+		c.Esc = 2
+	}
+	// what follows the span object on an NDJSON line: whitespace is harmless, anything else makes the line something that is not one JSON value
+	if c.Fmt == "znd" && n > 0 && r.Intn(8) == 0 {
+		c.Tails = make([]string, n)
+		c.Tails[r.Intn(n)] = pick(r, []string{" garbage", `{"traceId":"0af7651916cd43dd8448eb211c80319c","id":"00000000000000aa","name":"second"}`,
+			",", " 1", "]", " \t ", "  ", ` "x"`, "}"})
+		c.Class += "-tail"
+	}
 }
 
 // one request above the 1 MiB threshold of onSpan: the parser answers with several responses (mid-request flush);
